@@ -134,7 +134,7 @@ impl PoolAllocator {
             buckets: unsafe {
                 UniqueIndexSet::new_uninit(Self::calc_number_of_buckets(bucket_layout, ptr, size))
             },
-            bucket_size: bucket_layout.size(),
+            bucket_size: Self::padded_bucket_size(bucket_layout),
             bucket_alignment: bucket_layout.align(),
             start: SyncPointer::new(unsafe {
                 ptr.as_ptr().add(adjusted_start - ptr.as_ptr() as usize)
@@ -167,14 +167,21 @@ impl PoolAllocator {
     }
 
     pub fn memory_size(bucket_layout: Layout, size: usize) -> usize {
-        let min_required_buckets = size / bucket_layout.size();
+        let min_required_buckets = size / Self::padded_bucket_size(bucket_layout);
 
         UniqueIndexSet::memory_size(min_required_buckets)
     }
 
+    /// The distance between the start of two consecutive buckets. It is the size of the bucket
+    /// layout rounded up to the bucket alignment so that every bucket starts at an address that
+    /// satisfies the bucket alignment.
+    fn padded_bucket_size(bucket_layout: Layout) -> usize {
+        align(bucket_layout.size(), bucket_layout.align())
+    }
+
     fn calc_number_of_buckets(bucket_layout: Layout, ptr: NonNull<u8>, size: usize) -> usize {
         let adjusted_start = align(ptr.as_ptr() as usize, bucket_layout.align());
-        let bucket_size = align(bucket_layout.size(), bucket_layout.align());
+        let bucket_size = Self::padded_bucket_size(bucket_layout);
 
         (ptr.as_ptr() as usize + size - adjusted_start) / bucket_size
     }
@@ -346,7 +353,7 @@ impl<const MAX_NUMBER_OF_BUCKETS: usize> FixedSizePoolAllocator<MAX_NUMBER_OF_BU
 
     pub fn new(bucket_layout: Layout, ptr: NonNull<u8>, size: usize) -> Self {
         let adjusted_start = align(ptr.as_ptr() as usize, bucket_layout.align());
-        let bucket_size = align(bucket_layout.size(), bucket_layout.align());
+        let bucket_size = PoolAllocator::padded_bucket_size(bucket_layout);
         let number_of_buckets = (ptr.as_ptr() as usize + size - adjusted_start) / bucket_size;
 
         let mut new_self = FixedSizePoolAllocator {
@@ -357,7 +364,7 @@ impl<const MAX_NUMBER_OF_BUCKETS: usize> FixedSizePoolAllocator<MAX_NUMBER_OF_BU
                         MAX_NUMBER_OF_BUCKETS,
                     ))
                 },
-                bucket_size: bucket_layout.size(),
+                bucket_size,
                 bucket_alignment: bucket_layout.align(),
                 start: SyncPointer::new(unsafe {
                     ptr.as_ptr().add(adjusted_start - ptr.as_ptr() as usize)
